@@ -126,6 +126,17 @@ CHECKS["C17"] = (MC,
     "equality with the notebook entries of the report and cwd preservation.",
     "Trusted: git's own report as reference; content ids embedded in the notebooks; rename heuristics are git's.", "DESIGN.md §5 C17")
 
+CHECKS["C19"] = (MC,
+    "TLC enumeration of ConfigRes.tla (documented resolution rule per entry point: all assignments of an option to <= 2/3 "
+    "(directory, section) sites x flag) materialised as real config files and evaluated with build_config and the entry points' "
+    "real argument parsers",
+    "The documented rule is an explicit TLA+ definition (Winner / PathWinner) over the section lists of docs/source/config.rst; TLC "
+    "enumerates every assignment within the bound for each of the 11 entry points and checks the rule's defining invariants. Each case "
+    "is written to nbdime_config.json files in a private cwd, JUPYTER_CONFIG_PATH entry and JUPYTER_CONFIG_DIR for six representative "
+    "options (incl. path-wise merged Ignore); build_config and the real parser (with and without the flag) must return the winner's value.",
+    "Trusted: the mapping of abstract sites to files/values; jupyter_core's order of the non-cwd directories; parser capture for the git "
+    "tools.", "DESIGN.md §5 C19")
+
 NOT_YET = {}
 
 PROPS = [json.loads(l)["id"] for l in open(os.path.join(VERIF, "properties.jsonl"))]
